@@ -5,6 +5,8 @@ CONSTANTS
   Extractors = {1, 2, 3}
   MatchOf <- MatchDef
   TieOf <- TieDef
+  MergeOf <- MergeDef
+  EdSetOrder = FALSE
   SetOrder = FALSE
   SharedSel = FALSE
   MaxCalls = 3
